@@ -166,6 +166,11 @@ def gen_cases(rng, tier):
         P = importlib.import_module("props." + mod)
         src = [c for c in P.gen_cases(rng.__class__(rng.randrange(1 << 30)), "quick") if len(c) > 4 and c[2] in ("uas", "uac")]
         rng.shuffle(src)
+        if mod == "c12":
+            # always among them: a CANCEL (or BYE) that crosses the final response - it arrives while accept / reject waits for the ACK
+            crossing = [c for c in src if len(c) > 7 and c[6] == "race" and "cancel" in c[7].split(",") and any(x == "accept" or x.startswith("reject") for x in c[7].split(","))
+                        and c[7].split(",").index("cancel") > min(i for i, x in enumerate(c[7].split(",")) if x == "accept" or x.startswith("reject"))]
+            src = crossing[:16] + [c for c in src if c not in crossing[:16]]
         n = take if tier == "quick" else take * 8
         for j, c in enumerate(src[:n]):
             steps = [s for s in c[4].split(",") if s]
